@@ -3,7 +3,7 @@
    inserted lines and bytes (Model/Shift.v).  Proved for the modelled queries; that the HCL parser maps
    the translated text to the translated tree is a hypothesis, validated by the harness on every pair. *)
 From Coq Require Import String List ZArith Bool.
-From HV Require Import Base.Pos Model.Schema Model.Ast Model.Merge Model.Validate Model.BodyQueries Model.Shift Proofs.ShiftProofs.
+From HV Require Import Base.Pos Model.Schema Model.Ast Model.Merge Model.Validate Model.BodyQueries Model.Shift Proofs.ShiftProofs Proofs.ShiftSymbols.
 
 (* the schema in force inside a block does not depend on where the block is *)
 Theorem C18_effective_schema_position_independent : forall file at_ dl db sc k,
@@ -22,3 +22,10 @@ Theorem C18_tokens_equivariant : forall file at_ dl db b bs mods,
   tokens_body bs mods (shift_body file at_ dl db b) = map (shift_stoken file at_ dl db) (tokens_body bs mods b).
 Proof. exact tokens_body_equivariant. Qed.
 Print Assumptions C18_tokens_equivariant.
+
+(* the outline of the translated file = the translated outline (inserting text never moves bytes backwards) *)
+Theorem C18_symbols_equivariant : forall file at_ dl db, (0 <= db)%Z -> forall b bs,
+  body_in_file file b ->
+  symbols_body bs (shift_body file at_ dl db b) = map (shift_symbol file at_ dl db) (symbols_body bs b).
+Proof. exact symbols_body_equivariant. Qed.
+Print Assumptions C18_symbols_equivariant.
